@@ -38,7 +38,10 @@
    Between two phases of JFA the code computes point estimates (finalize_v / finalize_u) from the caller's
    machine: `fin` records the version they were computed from.
    Named deviation BAG_RESULT_NOT_ASSIGNED: the value returned by the D phase's graph is not stored
-   (`self._D = dask.compute(..)[0]` -> `dask.compute(..)[0]`); for ISV, which has no D phase, U.            *)
+   (`self._D = dask.compute(..)[0]` -> `dask.compute(..)[0]`); for ISV, which has no D phase, U.
+   Named deviation BAG_ESTEP_OUTPUT_REUSED: `e_step_output` is built (and, once computed, kept) outside the
+   loop over the iterations: the second M-step receives stale contributions and, in Shared mode, the first
+   of them already holds the previous total (in-place addition) - every other class is counted twice.      *)
 EXTENDS Integers, Sequences, FiniteSets, TLC, Json
 
 CONSTANTS ScnSet,       \* explicit scenarios <<y, comp>>: labels of the flattened bag, partition lengths
@@ -128,9 +131,13 @@ Relabel == /\ stage = "regroup" /\ part = P + 1
 \* ---------------------------------------------------------------- stage 2
 Seen == IF mode = "Shared" THEN host ELSE snap
 
+\* deviation: the list of delayed E-steps is built once per phase, outside the loop over the iterations
+ReusesEStepOutput == "BAG_ESTEP_OUTPUT_REUSED" \in Dev /\ it > 0
 Submit == /\ stage = "em" /\ g = "idle"
           /\ snap' = host
-          /\ edone' = {} /\ eres' = [c \in 1..NClasses |-> NoRes] /\ ord' = <<>>
+          /\ IF ReusesEStepOutput
+                THEN UNCHANGED <<edone, eres, ord>>
+                ELSE edone' = {} /\ eres' = [c \in 1..NClasses |-> NoRes] /\ ord' = <<>>
           /\ g' = "E"
           /\ UNCHANGED <<y, comp, mode, kind, iters, stage, part, i, X, ylists, ph, it, host, wm,
                          macc, mcls, mret, fin, orders>>
